@@ -114,7 +114,12 @@ def _mk_bisect(orig):
     return bisect
 
 
-def _judge(ctx, mon, fn, target, lower, upper, precision, max_iter, out, err, n_eval, nested):
+def _judge(ctx, mon, fn_real, target, lower, upper, precision, max_iter, out, err, n_eval, nested):
+    def fn(x):
+        # the oracle evaluates the caller's function in the default (grad-enabled) mode, as the caller's code would, and keeps no graph
+        with torch.enable_grad():
+            return fn_real(x).detach()
+
     with torch.no_grad():
         lo0, up0 = torch.as_tensor(lower), torch.as_tensor(upper)
         if lo0.numel() > 1 or up0.numel() > 1:
@@ -247,7 +252,7 @@ def setup(ctx):
 
 # ---- analytic driver --------------------------------------------------------------------------
 def family(rng, shape, dtype):
-    name = pick(rng, ["affine", "exp", "logistic", "cubic", "sqrt"])
+    name = pick(rng, ["affine", "exp", "logistic", "cubic", "sqrt", "gradient_of_potential"])
     a = t(rng.uniform(0.3, 3.0, shape), dtype)
     b = t(rng.uniform(-1.0, 1.0, shape), dtype)
     sgn = -1.0 if rng.random() < 0.5 else 1.0
@@ -267,6 +272,17 @@ def family(rng, shape, dtype):
         f = lambda x: sgn * (a * x.pow(3) + x + b)  # noqa: E731
         inv = None
         dom = (-2.0, 2.0)
+    elif name == "gradient_of_potential":
+        # a monotone function that is itself obtained by automatic differentiation (the gradient of a convex potential, as a delta is of a price):
+        # bisect must be able to invert it
+        def f(x):
+            # (no enable_grad of its own: like a user's function it relies on the gradient mode the caller - here bisect - runs it in)
+            z = (x.detach() + torch.zeros_like(a)).clone().requires_grad_()  # elementwise also for a scalar x: one coordinate per element
+            pot = (a * z.square() / 2 + torch.nn.functional.softplus(z) + b * z).sum()
+            return sgn * torch.autograd.grad(pot, z)[0]
+
+        inv = None
+        dom = (-3.0, 3.0)
     else:
         f = lambda x: sgn * (a * torch.sqrt(x) + b)  # noqa: E731
         inv = lambda y: ((sgn * y - b) / a).square()  # noqa: E731
